@@ -307,6 +307,10 @@ func TestVerifC01Grid(t *testing.T) {
 			}
 		}
 	}
+	// ---- credentials with 0-3 credentialStatus entries x which entry is listed on which status list
+	if !replay || rc.Kind == "status-entries" {
+		statusEntriesGrid(e, r, &idx, replay, rc)
+	}
 	r.Bound("grid_cases", idx)
 }
 
